@@ -105,7 +105,11 @@ impl Evaluator {
   }
 
   pub fn gen<R: rand::Rng>(&self, rng: &mut R) -> Share {
-    let rand = Fp::random(rng);
+    // x = 0 would hand out the secret itself: resample
+    let mut rand = Fp::random(&mut *rng);
+    while bool::from(rand.is_zero()) {
+      rand = Fp::random(&mut *rng);
+    }
     self.evaluate(rand)
   }
 }
